@@ -5,6 +5,13 @@ from ..interp_prop import InterpProp
 
 class C06(InterpProp):
     id = 'C06'
+    # observables compared with the model (see InterpProp.normalize)
+    cmp_eff = ()
+    cmp_step = ('transition', 'entered', 'exited')
+    cmp_slot = ('config',)
+    cmp_callbacks = False
+    cmp_err = 'class'
+    cmp_time = False
     quick_cases = 1000
     thorough_cases = 30000
     n_ops = 50
